@@ -2,3 +2,4 @@ import Bec2Verif.Props.C15
 import Bec2Verif.Props.C01
 import Bec2Verif.Props.C08
 import Bec2Verif.Props.C16
+import Bec2Verif.Props.C05
